@@ -63,6 +63,15 @@ def numeric(tier, seed):
         S("Wheat", "Loam", seed=seed + 9, plant_md=(10, 15), year=2003, seasons=2),
         S("Barley", "SandyLoam", seed=seed + 10, plant_md=(1, 20), year=2004, seasons=2, off_season=True),
     ]
+    # month/day strings written without leading zeros (valid: the model parses them as dates), for a single-year and a year-spanning season
+    u1 = S("Maize", "SandyLoam", seed=seed + 11, plant_md=(5, 1), year=2001, seasons=2)
+    u1["crop"]["planting_date"] = "5/1"
+    u2 = S("Wheat", "Loam", seed=seed + 12, plant_md=(10, 15), year=2001, seasons=2)
+    u2["crop"]["harvest_date"] = "5/31"
+    u3 = S("Barley", "Loam", seed=seed + 13, plant_md=(3, 5), year=2001, seasons=2, off_season=True)
+    u3["crop"]["planting_date"] = "3/5"
+    u3["crop"]["harvest_date"] = "11/2"
+    scs += [u1, u2, u3]
     if tier == "thorough":
         for i in range(60):
             crop = rnd.choice([c for c in L.CROPS if L.MATURITY_CD[c] < 250])
